@@ -55,6 +55,16 @@ KINDS = {
                       [{"x": 1}, {"x": 2, "y": "s"}, {}]),
     "oneof-ref-string": ({"oneOf": [_ref("TgtUnion"), {"type": "string"}]}, None, [{"id": 1}, "s", {"id": 2, "displayName": "l"}]),
     "any": ({}, None, [1, "s", {"a": [1]}]),
+    # reference to a NAMED enum whose members are spelled in every style and which declares a default itself
+    "ref-enum": (_ref("StateEnum"), None, ["inProgress", "done-now", "on hold"]),
+    "ref-enum-upper": (_ref("StateEnumUpper"), None, ["OPEN", "closedNow", "re_opened"]),
+    "nullable-enum": ({"type": "string", "enum": ["x", "y"], "nullable": True}, None, ["x", None, "y"]),
+    "nullable-inline-object": ({"type": "object", "nullable": True, "properties": {"q": {"type": "integer"}}}, None, [{"q": 1}, None, {}]),
+    "nullable-array": ({"type": "array", "nullable": True, "items": {"type": "integer"}}, None, [[1], None, []]),
+}
+NAMED_ENUMS = {
+    "StateEnum": {"type": "string", "enum": ["inProgress", "done-now", "on hold", "UPPER", "snake_case"], "default": "inProgress"},
+    "StateEnumUpper": {"type": "string", "enum": ["OPEN", "closedNow", "re_opened"], "default": "closedNow"},
 }
 
 REDUCED_KINDS = ["string", "date-time", "date", "uuid", "integer", "boolean", "str-enum", "arr-string", "arr-ref", "map-string", "ref",
@@ -138,6 +148,7 @@ def model_schema(case):
 def pack_doc(cases, prefix="M"):
     """one document with one model per case (M0..Mk) plus the shared Tgt; models are independent of one another"""
     schemas = {t: TGT for t in TARGETS}
+    schemas.update(NAMED_ENUMS)
     for i, c in enumerate(cases):
         schemas[f"{prefix}{i}"] = model_schema(c)
     return {"openapi": "3.0.3", "info": {"title": "F", "version": "1"}, "paths": {}, "components": {"schemas": schemas}}
